@@ -216,6 +216,9 @@ const AGREED_NONASCII: &[char] = &[
 const CASELESS_POOL: &[char] = &[
     '中', '文', '日', '本', 'あ', 'ア', 'א', 'ב', 'ا', 'ب', '한', '글', '€', '→', '\u{ff61}', '\u{e000}', '\u{fffd}',
     '\u{ffee}', '\u{2603}', '\u{1f600}', '\u{10000}', '\u{1d11e}', '\u{20000}',
+    // valid name characters that a reader may be tempted to treat specially: NUL (also as the
+    // LAST unit of a name, where it looks like the terminator), controls, BOM, noncharacters
+    '\u{0}', '\u{0}', '\u{1}', '\u{7f}', '\u{feff}', '\u{ffff}', '\u{fffe}',
 ];
 /// Characters whose case mapping is disputed between Unicode versions / MS-CFB
 /// exceptions / this crate's table.  Generated for robustness, never judged.
